@@ -115,6 +115,8 @@ def run_case(c):
         R.append(call("velocity", {"v": v, "via": "constructor dynamics"}, lambda: Note("C", 4, {"velocity": v}).velocity, integer))
         R.append(call("velocity", {"v": v, "via": "constructor Name-octave text, keyword"}, lambda: Note("C-4", velocity=v).velocity, integer))
         R.append(call("velocity", {"v": v, "via": "constructor Name-octave text, dynamics"}, lambda: Note("C-4", dynamics={"velocity": v}).velocity, integer))
+        R.append(call("velocity", {"v": v, "via": "constructor, channel keyword given too"}, lambda: Note("C", 4, channel=3, velocity=v).velocity, integer))
+        R.append(call("velocity", {"v": v, "via": "constructor, all arguments by position"}, lambda: Note("C", 4, None, v, 3).velocity, integer))
     elif k == "channel":
         ch = c["c"]
         def f2():
@@ -131,6 +133,8 @@ def run_case(c):
         R.append(call("channel", {"c": ch, "via": "constructor dynamics"}, lambda: Note("C", 4, {"channel": ch}).channel, integer))
         R.append(call("channel", {"c": ch, "via": "constructor Name-octave text, keyword"}, lambda: Note("C-4", channel=ch).channel, integer))
         R.append(call("channel", {"c": ch, "via": "constructor Name-octave text, dynamics"}, lambda: Note("C-4", dynamics={"channel": ch}).channel, integer))
+        R.append(call("channel", {"c": ch, "via": "constructor, velocity keyword given too"}, lambda: Note("C", 4, velocity=64, channel=ch).channel, integer))
+        R.append(call("channel", {"c": ch, "via": "set_note, velocity keyword given too"}, cs(lambda x: x.set_note("C", 4, velocity=64, channel=ch)), integer))
     elif k == "badname":
         s = txt(c["s"])
         R.append(call("badname", {"s": list(s), "via": "constructor"}, lambda: proj(Note(s))))
